@@ -485,8 +485,9 @@ class NTAG21x(tt2.Type2Tag):
         # Select it again, as for any other NAK response, to not have
         # all further commands (e.g. authenticate with another
         # password) time out.
-        self.target.sel_req = self.target.sdd_res[:]
-        self._target = self.clf.sense(self.target)
+        if self.target:
+            self.target.sel_req = self.target.sdd_res[:]
+            self._target = self.clf.sense(self.target)
         return False
 
     def _dump(self, stop, footer):
